@@ -20,8 +20,13 @@ def raw_extract(chk):
     drv = chk.drv()
     p = core.sh([drv, "extract", core.REPO], check=False)
     if p.returncode != 0:
-        raise core.Infra("extractor refused the sources (outside its grammar):\n" + p.stdout[-2000:])
-    return json.loads(p.stdout.strip().splitlines()[-1])
+        raise core.Infra("extractor failed:\n" + p.stdout[-2000:])
+    ex = json.loads(p.stdout.strip().splitlines()[-1])
+    for k in ("seal_scratch_local", "open_scratch_local"):
+        if isinstance(ex.get(k), dict):       # could not be decided from the source: recorded, assumed per-call
+            chk.notes.append("%s could not be extracted: %s" % (k, ex[k].get("error")))
+            ex[k] = True
+    return ex
 
 
 def write_extracted(chk):
@@ -41,7 +46,7 @@ def write_extracted(chk):
                                         "double": "DoubleProg"}[name], prog_to_tla(ex[name]["prog"])))
         for name, tn in (("field_chain", "Field"), ("scalar_chain", "Scalar")):
             f.write("%sDeclaredSquares == %d\n%sDeclaredMultiplies == %d\n" % (
-                tn, ex[name]["declared_squares"], tn, ex[name]["declared_multiplies"]))
-            f.write("%sTemps == {%s}\n" % (tn, ", ".join(tla_str(t) for t in ex[name]["temps"])))
+                tn, ex[name].get("declared_squares", -1), tn, ex[name].get("declared_multiplies", -1)))
+            f.write("%sTemps == {%s}\n" % (tn, ", ".join(tla_str(t) for t in ex[name].get("temps", []))))
         f.write("=============================================================================\n")
     return ex
